@@ -278,6 +278,12 @@ pub fn hunt_lastbyte(n: usize, first: u64, count: u64) {
                 if special.contains(&pl) || special.contains(&sl) || (pkb[pkb.len() - 2] == 0x0d && pl == 0x0a) {
                     println!("{} {} pk_last={:02x} sk_last={:02x}", n, hex(&seed), pl, sl);
                 }
+                // and a body that STARTS with 0x00 / 0xff (leading-zero stripping, sign extension)
+                for (what, b) in [("pk", &pkb), ("sk", &skb)] {
+                    if b[1] == 0x00 || b[1] == 0xff {
+                        println!("{} {} {}_first={:02x}", n, hex(&seed), what, b[1]);
+                    }
+                }
             });
         }
     });
